@@ -26,7 +26,7 @@ PROPS = {
              '"serves" a height when the peer-info manager reports it at or above that height and it answers with that block. '
              'Out of scope: cancellation of the protocol context, duplicate pids, peer heights changing during a task, block '
              'contents beyond the height. Bounds: TLC 2-3 peers x 2-3 heights, retry bound 5 in exhaustive runs (50 in '
-             'generated/recorded runs), recordings up to 4 peers x 5 heights. The per-peer concurrency limit (42-50 requests) is '
+             'generated/recorded runs), recordings up to 4 peers x 5 (thorough: 6) heights. The per-peer concurrency limit (42-50 requests) is '
              'explored exhaustively only in the model (Limit=1 configuration); on the real code it is reached by three scripted '
              'runs (60/130/55 heights, peers holding their replies) that are judged on the property observables, not validated by TLC.',
     ),
@@ -225,13 +225,13 @@ def run(ctx):
     _scenarios(ctx, b)
     # 5. binding B: free-running recordings validated by the trace specification
     r, s = ctx.validate_recording(b, 'Download_Trace', 'Download_Trace.cfg', dfs=True, timeout=4 * T,
-                                  opts=dict(n=15 if q else 60, peers=4, heights=4, stuck_ms=60000))
+                                  opts=dict(n=30 if q else 300, peers=4, heights=5, stuck_ms=60000))
     ctx.extra['recorded'] = s.get('counters')
     if not q:
-        # (trace validation explores every interleaving of the silent steps: ~1e3-1e5 states per recorded task)
-        r5, s5 = ctx.validate_recording(b, 'Download_Trace', 'Download_Trace.cfg', dfs=True, timeout=4 * T,
-                                        opts=dict(n=20, peers=3, heights=5, stuck_ms=60000, salt=5))
-        ctx.extra['recorded_5_heights'] = s5.get('counters')
+        # (trace validation explores every interleaving of the silent steps: ~1e2-1e4 states per recorded task)
+        r6, s6 = ctx.validate_recording(b, 'Download_Trace', 'Download_Trace.cfg', dfs=True, timeout=4 * T,
+                                        opts=dict(n=100, peers=4, heights=6, stuck_ms=60000, salt=6))
+        ctx.extra['recorded_6_heights'] = s6.get('counters')
     ctx.notes.append('informational (stronger reading of "within the same task"): %d requests went to a peer that had already '
                      'failed that height earlier in the same task (re-download pass), out of %d requests in %d recorded tasks'
                      % ((s.get('counters') or {}).get('reask_same_task_informational', 0), (s.get('counters') or {}).get('asks', 0),
